@@ -80,6 +80,11 @@ func main() {
 		for i := 0; i < n; i++ {
 			g := &transx.Gen{R: c.R}
 			sc := g.GenScenario(false, false)
+			if sc.Cfg.FileMode == 0 {
+				// A zero default file mode is rejected by EnsureDefaultFileModeValid
+				// before Transition is ever called (hypothesis FileModeOK of the theorems).
+				sc.Cfg.FileMode = 0o600
+			}
 			c.Count("scenario")
 			cs := build(sc, nil)
 			if cs == nil {
